@@ -272,12 +272,13 @@ def oracle_general(r):
     else:
         lab = semantic_compare(row.name, pristine, cout, b.qubits, r["c"], _tol(row, o, n), int(o.get("psi", 0)), dist_only=row.dist_only)
     st_ = b.stats
+    _imc = bool(o.get("ign")) and st_["ign"] >= 2 and H.ignored_moment_class(pristine)
     lab.update({
         "row": row.name, "changed": row.name if changed else "-",
         "nontrivial": bool(changed and (lab["noncommuting"] if lab["class"] == 1 else lab["outcomes"] >= 2)),
         "deep": bool(o.get("deep")), "ign_active": bool(o.get("ign") and st_["ign"]), "frozen": bool(o.get("frozen")),
-        "ign_moment_class": bool(o.get("ign")) and H.ignored_moment_class(pristine),
-        "ign_moment_class_row": row.name if (o.get("ign") and H.ignored_moment_class(pristine)) else "-",
+        "ign_moment_class": _imc,
+        "ign_moment_class_row": row.name if _imc else "-",
         "has_sub": st_["sub"] > 0, "has_cc": st_["cc_bound"] > 0, "has_meas": st_["meas"] > 0, "has_sym": st_["sym"] > 0,
         "has_zeroq": st_["zeroq"] > 0, "has_chan": st_["chan"] > 0, "nested": st_["nested"] > 0,
     })
@@ -1005,7 +1006,29 @@ def _f29(sub, recipe):
     return False
 
 
+def _f30(sub, recipe):
+    """as_sweep of SqrtCZGaugeTransformer: its symbolizer rejects a gate that the target gateset accepts up to global phase but that
+    is not a CZPowGate (FSimGate(0, +-pi/2))."""
+    if recipe.get("row") != "as_sweep:SqrtCZGaugeTransformer":
+        return False
+    tgt = R.GAUGES["SqrtCZGaugeTransformer"][0].target
+    for op in G6.build(recipe["c"]).circuit.all_operations():
+        if op.gate is not None and len(op.qubits) == 2 and not isinstance(op.gate, cirq.CZPowGate) and not cirq.is_parameterized(op) and op in tgt:
+            return True
+    return False
+
+
+def _f31(sub, recipe):
+    """defer_measurements drops the index of a BitMaskKeyCondition (only KeyCondition keeps it): with a repeated key the control is
+    wired to the last instance."""
+    if recipe.get("row") != "defer_measurements" or not (recipe.get("c") or {}).get("repkeys"):
+        return False
+    return any(o.get("k") == "cc" and any(isinstance(c, dict) and c.get("t") == "bitmask" and c.get("index") == 0 for c in o.get("conds", []))
+               for o in _ops_of(recipe))
+
+
 KNOWN_FEATURES = {
+
     "F29_unroll_greedy_frontier_key_order": _f29,
 
     "F20_measurement_qid_unorderable": _f20,
